@@ -14,14 +14,3 @@ func VerifC03Fix(from uintptr, code []byte, tramp uintptr, funcSize, least int) 
 
 // VerifC03JumpBack emits the jump appended after the relocated prologue.
 func VerifC03JumpBack(from, to uintptr) []byte { return jmpToOriginFunctionValue(from, to) }
-
-// VerifC03Compose builds the complete trampoline (relocated prologue + jump back) in the
-// placeholder at `trampoline`, exactly as an apply with an origin placeholder does.
-func VerifC03Compose(origin, trampoline uintptr, jumpLen int) (p uintptr, err error) {
-	defer func() {
-		if r := recover(); r != nil {
-			err = fmt.Errorf("panic: %v", r)
-		}
-	}()
-	return fixOriginFuncToTrampoline(origin, trampoline, jumpLen)
-}
